@@ -803,7 +803,7 @@ def build_cases(ctx, thorough):
     rng = ctx.rng
     cases = corpus_cases()
     ncorpus = len(cases)
-    per = 5 if not thorough else 24
+    per = 10 if not thorough else 40
     length = 14 if not thorough else 30
     for kind in KINDS:
         cases.append(exhaustive_case(rng, kind, 5 if not thorough else 7))
